@@ -350,7 +350,12 @@ def fam_err(tier):
              rule("e8", "x ~ PEEK[1..2]"), rule("e9", "(!y ~ \"q\")? ~ x ~ POP"), rule("e10", "x ~ y ~ x", "compound"), rule("e11", "s ~ !s ~ ANY", "nonatomic"),
              'WHITESPACE = _{ " " }']
     g = dict(id="er0", text="\n".join(lines), alphabet=cps("abq "), maxlen=4 if tier == "quick" else 5)
-    return [g]
+    # failures inside and around line terminators, multi-byte text before the failure position
+    l2 = [rule("ln", '(!"\\n" ~ ANY)*', "atomic"), rule("x", '"a"'), rule("f0", 'ln ~ x'), rule("f1", '"\\r" ~ x'), rule("f2", 'ANY ~ ANY ~ x ~ EOI'),
+          rule("f3", '(x | "\\r" | "\\n")* ~ "é" ~ x'), rule("f4", 'NEWLINE ~ x ~ NEWLINE ~ x'), rule("f5", '(!x ~ ANY)* ~ x ~ !x ~ ANY')]
+    g2 = dict(id="er1", text="\n".join(l2), alphabet=[97, 13, 10, 233], maxlen=4 if tier == "quick" else 5,
+              inputs=[cps(s) for s in ["a\r\nb", "ab\r", "é\r\na", "a\r\n\r\n", "aé\r"]])
+    return [g, g2]
 
 
 def fam_dyck(tier):
@@ -394,7 +399,9 @@ def fam_get(tier):
               "(x | y)? ~ (x ~ (y | x)*)+", "x{2}", "x{1,2}", "(x ~ z)*", "z ~ x ~ z", "(z | x)", "((x ~ y) | (y ~ x))", "(x? ~ y)*", "&(x ~ y) ~ x", "x ~ (&x)?",
               "w ~ x ~ w", "x ~ EOI", "SOI ~ x* ~ EOI", "(x?)?", "(x*)?", "(x | y | z | w)*", "(x ~ x)+", "x? ~ x? ~ x?", "(x | x ~ y)", "(y | x)? ~ x*", "((x | y)*)",
               "!(x ~ x) ~ x", "&(x | y) ~ (y | x)", "PUSH(x | y) ~ PEEK", "(PUSH(x))* ~ POP_ALL", "x ~ (y ~ x)*", "(x ~ y)* ~ x", "(x ~ (y ~ (x ~ y?)?)?)", "((((x)?)*)?)",
-              "(x | y)+ ~ z?", "(z ~ x)? ~ (z ~ y)?", "(x ~ \"-\" ~ x) | x", "x ~ \"-\"? ~ y ~ \"-\"? ~ x", "(\"-\" ~ x)* ~ (\"-\" | y)", "v", "v ~ x", "(v | x)*"]
+              "(x | y)+ ~ z?", "(z ~ x)? ~ (z ~ y)?", "(x ~ \"-\" ~ x) | x", "x ~ \"-\"? ~ y ~ \"-\"? ~ x", "(\"-\" ~ x)* ~ (\"-\" | y)", "v", "v ~ x", "(v | x)*",
+              "x ~ x ~ (x ~ y ~ z)", "(\"-\" ~ x | \"-\"? ~ x ~ x | x ~ y ~ w)", "x ~ \"-\" ~ x ~ &(x ~ y ~ z) ~ ANY*", "x? ~ (\"-\" ~ x)? ~ (y ~ x ~ z)?",
+              "x ~ x ~ x ~ (y | x ~ y ~ z ~ w)", "(x | y) ~ (x | y) ~ (w ~ x ~ y ~ z)?", "x* ~ \"-\" ~ x* ~ (y ~ z ~ x)*", "y ~ x ~ y ~ (x ~ y ~ z)", "(x ~ (x ~ (x ~ y ~ z)))"]
     hdr = "\n".join([rule("x", '"a"'), rule("y", '"b"'), rule("z", '"c"', "silent"), rule("w", '"d"', "atomic"), rule("v", 'x ~ y?', "silent")])
     kinds = ["normal", "silent", "compound", "nonatomic", "normal"]
     out = []
@@ -464,3 +471,51 @@ def fam_repo(tier):
         if r.get("valid") and not r.get("pairs_errors"):
             keep.append(g)
     return keep
+
+
+def fam_skipstack(tier):
+    """Skip rules (only one of WHITESPACE / COMMENT defined, or both) whose bodies use the stack: a failed skip attempt
+    must not leave anything on the stack (C05), probes make a leak visible."""
+    out = []
+    bodies = ['"#" ~ PUSH("="*) ~ "[" ~ (!"]" ~ ANY)* ~ "]" ~ POP ~ "#"', '"#" ~ PUSH("=") ~ "!"', 'PUSH("#") ~ "-" ~ DROP', '"#" ~ (PUSH("=") ~ "x")? ~ "#"',
+              'PUSH("#"+) ~ "=" ~ POP']
+    probes = ['"a" ~ "b" ~ PEEK_ALL ~ EOI', '"a" ~ "b"* ~ POP_ALL ~ "c"?', 'PUSH("a") ~ "b" ~ PEEK[0..1] ~ ANY*', '("a" ~ "b")* ~ DROP? ~ PEEK?  ~ EOI', 'PUSH("a") ~ "b" ~ DROP ~ DROP? ~ "c"']
+    gi = 0
+    for which in ("COMMENT", "WHITESPACE", "both"):
+        for bi, b in enumerate(bodies):
+            lines = []
+            if which in ("COMMENT", "both"):
+                lines.append(rule("COMMENT", b, "silent"))
+            if which == "WHITESPACE":
+                lines.append(rule("WHITESPACE", b, "silent"))
+            if which == "both":
+                lines.append(WS_SP)
+            for k, p in enumerate(probes):
+                lines.append(rule("r%d" % k, p, ["normal", "nonatomic", "normal", "compound", "normal"][k]))
+            g = dict(id="ss%d" % gi, text="\n".join(lines), alphabet=cps("ab#=[]!-x "), maxlen=0, entries=["r%d" % k for k in range(len(probes))])
+            ins = set()
+            seps = ["#=[x]=#", "#=[x", "#=!", "#=", "#-", "#", "#=x#", "#=x", "##=#", "##=", "#[]#", "#==[a]==#", "#==[a]=#", " ", ""]
+            for s1 in seps:
+                for s2 in seps[:8] + [""]:
+                    for tail in ["", "a", "#", "=", "c", "a#="]:
+                        ins.add("a" + s1 + "b" + s2 + tail)
+                        ins.add("a" + s1 + "b" + s2 + "a" + s1 + "b" + tail)
+            g["inputs"] = [cps(s) for s in sorted(ins)][: (400 if tier == "quick" else 2000)]
+            out.append(g)
+            gi += 1
+    read = peg.pest_read(out, "ss_f")
+    return [g for g, r in zip(out, read) if r.get("valid")]
+
+
+def fam_skipuntil(tier):
+    """Atomic rules of the shape pest's skipper turns into a Skip node: one and several terminators, terminators that are
+    prefixes of each other, multi-byte text before the terminator, terminator at the very end."""
+    lines = [rule("k0", '(!("b" | "ab") ~ ANY)*', "atomic"), rule("k1", '(!("\\n" | "a") ~ ANY)* ~ ("a" | "\\n")?', "atomic"),
+             rule("k2", '(!("ab" | "b" | "c") ~ ANY)* ~ ANY?', "atomic"), rule("k3", '"/*" ~ (!"*/" ~ ANY)* ~ "*/"', "atomic"),
+             rule("k4", '(!("é" | ";") ~ ANY)* ~ ";"', "atomic"), rule("k5", '(!"中" ~ ANY)* ~ "中" ~ (!("a" | "中") ~ ANY)*', "atomic"),
+             rule("k6", '"\'" ~ (!"\'" ~ ANY)* ~ "\'"', "atomic"), rule("k7", '(!("c" | "bc" | "abc") ~ ANY)* ~ ("abc" | "bc" | "c")', "atomic"),
+             rule("n0", 'k0 ~ "b" ~ k2', "nonatomic"), rule("n1", "k3+")]
+    g1 = dict(id="su0", text="\n".join(lines), alphabet=cps("abc\n"), maxlen=3 if tier == "quick" else 4,
+              inputs=[cps(s) for s in ["a\nb\r\nc", "cab", "xxabc", "aaab", "/**/", "/*a*/", "/* é */", "/*é*/", "/*中*/", "é;", "éé;", "a中;", "中é;é", "'é'", "'中😀'", "ab中a", "é中é中a",
+                                        "😀😀;", "aé;", "/*😀*/x", "/*a*", "aaé;"]])
+    return [g1]
